@@ -1,5 +1,14 @@
 package main
 
+import (
+	"bytes"
+	"fmt"
+	"os"
+	"strings"
+
+	"github.com/ddddddO/gtree"
+)
+
 // C04: JSON / YAML / TOML outputs decode (with the standard decoders) into records isomorphic to the tree.
 
 func init() { props["c04"] = runC04 }
@@ -100,6 +109,46 @@ func runC04(ctx *Ctx) *Report {
 					c := massiveCase{Kind: "massive", Op: op, Doc: hx(doc), Text: "<12 roots, hostile names, slow writer>", Sched: int64(40 + s), Fmt: fmtDefault, SlowUS: 400}
 					rep.Record(c, "massive-slow:"+op+fmtInt(s), true, runMassive(m, c))
 					rep.Count("massive-slow-writer:" + op)
+				}
+			}
+		}
+	}
+	// the command line selects the same encoders: `gtree output --format F`, alone and together with every other
+	// flag of the sub-command, writes what the library writes for that format
+	{
+		bin := cliBinary()
+		dir := newJail()
+		defer os.RemoveAll(dir)
+		one := []*Tree{{Name: "r\"q", Kids: []*Tree{{Name: "a: b", Kids: []*Tree{{Name: "#c"}}}, {Name: "d\\e"}}}}
+		two := append(append([]*Tree{}, one...), &Tree{Name: "s", Kids: []*Tree{{Name: "t"}}})
+		for di, f := range [][]*Tree{one, two} {
+			doc := spell(f, plainSpelling)
+			for _, format := range []string{"json", "yaml", "toml"} {
+				if format == "toml" && len(f) != 1 {
+					continue
+				}
+				var want bytes.Buffer
+				werr := gtree.OutputFromMarkdown(&want, bytes.NewReader(doc), encodeOpt(format))
+				for ai, extra := range [][]string{nil, {"--massive-timeout", "30s"}, {"--massive", "--massive-timeout", "30s"}, {"--massive"}, {"-mt", "1m"}} {
+					massive := false
+					for _, e := range extra {
+						if e == "--massive" {
+							massive = true
+						}
+					}
+					if massive && len(f) != 1 {
+						continue // root order is not determined
+					}
+					args := append([]string{"output", "--format", format}, extra...)
+					run := execCli(bin, dir, args, doc, "pipe")
+					var diffs []Diff
+					if run.crashed || (run.code == 0) != (werr == nil) {
+						diffs = append(diffs, Diff{What: "gtree " + strings.Join(args, " ") + ": exit status", Real: fmt.Sprintf("exit %d stderr=%q", run.code, run.stderr), Model: "library: " + classify(werr)})
+					} else if werr == nil && !bytes.Equal(run.stdout, want.Bytes()) {
+						diffs = append(diffs, Diff{What: "gtree " + strings.Join(args, " ") + " writes something else than the library's " + format + " output", Real: hx(run.stdout), Model: hx(want.Bytes())})
+					}
+					rep.Record(map[string]any{"kind": "cli-format", "args": args, "doc": string(doc)}, "cli-format:"+fmtInt(di)+format+fmtInt(ai), true, diffs)
+					rep.Count("cli:--format " + format)
 				}
 			}
 		}
